@@ -410,3 +410,47 @@ def mon_c10(sn):
     if sn.obs.get("cache_mutated"):
         bad.append("an object read from the informer caches was modified")
     return bad
+
+
+def mon_c08(sn, faulty):
+    """update revision mirrors the template; no needless revision; rollback renumbers; collisions never overwrite"""
+    bad = []
+    if not sn.ok or sn.paused or sn.set["selector"] != "ok":
+        return bad
+    s = sn.set
+    listed = listed_revs(sn)
+    revcalls = [c for c in sn.calls if c["res"] == "controllerrevisions" and c["verb"] in ("create", "update", "delete", "patch")]
+    creates = [c for c in revcalls if c["verb"] == "create"]
+    allrevs = {r["name"]: r for r in sn.sc["api"]["revs"]}
+    # (d) an equal revision is listed (no numeric hash label in play) => nothing is created
+    equal = [r for r in listed.values() if r["tmpl"] == s["tmpl"] and not (r["hashlabel"] or "").lstrip("+-").isdigit()]
+    if equal and creates:
+        bad.append("a revision equal to the template is listed (%s) but %s was created" % (equal[0]["name"], creates[0]["name"]))
+    # (f) a colliding name with different data is never updated / deleted to make room
+    for c in creates:
+        if c.get("err") == "exists":
+            r = allrevs.get(c["name"])
+            if r is not None and r["tmpl"] != s["tmpl"]:
+                later = [x for x in revcalls if x["name"] == c["name"] and x["verb"] in ("update", "delete", "patch") and x is not c]
+                if later and r["name"] not in listed:
+                    bad.append("revision %s collides by name with different data and was then %s" % (c["name"], later[0]["verb"]))
+    for c in creates:
+        if c.get("tmpl") != s["tmpl"]:
+            bad.append("revision %s created with data of template %s, the set's template is %s" % (c["name"], c.get("tmpl"), s["tmpl"]))
+    # (e) rollback: renumbered above all others
+    for c in revcalls:
+        if c["verb"] == "update" and c["name"] in listed and c.get("revision") != listed[c["name"]]["revision"]:
+            mx = max(r["revision"] for r in listed.values())
+            if c.get("revision") != mx + 1:
+                bad.append("revision %s renumbered to %s, expected %d (above all others)" % (c["name"], c.get("revision"), mx + 1))
+            if listed[c["name"]]["tmpl"] != s["tmpl"]:
+                bad.append("revision %s renumbered although its data is not the set's template" % c["name"])
+    # (c) after a successful fault-free reconcile the update revision is stored and mirrors the template
+    if not faulty and sn.obs["result"] == "ok" and sn.upd is not None and getattr(sn, "final", None):
+        fin = {r["name"]: r for r in sn.final["revs"]}
+        r = fin.get(sn.upd)
+        if r is None:
+            bad.append("status.updateRevision %s names no stored ControllerRevision" % sn.upd)
+        elif r["tmpl"] != s["tmpl"]:
+            bad.append("status.updateRevision %s records template %s, the set's template is %s" % (sn.upd, r["tmpl"], s["tmpl"]))
+    return bad
